@@ -392,6 +392,19 @@ pub fn denote(filter: &str) -> (Vec<String>, bool) {
     if l > bits || lo > hi || hi > bits || lo < l {
         return (vec![], true);
     }
+    // second universe, for policies with thousands of ranges: the /24s under 172.16.0.0/12 and the /48s under
+    // 2001:db9::/36 (4096 atoms each); a filter there denotes the atoms of exactly that length it covers
+    let (broot, brl, blen): (u128, u8, u8) = if v6 { (0x2001_0db9_0000_0000_0000_0000_0000_0000, 36, 48) } else { (0xac10_0000, 12, 24) };
+    if l >= brl && (a & mask(bits, brl)) == broot {
+        let mut atoms = Vec::new();
+        if l <= blen && lo <= blen && blen <= hi {
+            let base = a & mask(bits, l);
+            for k in 0..(1u128 << (blen - l)) {
+                atoms.push(atom_name(v6, base | (k << (bits - blen) as u32), blen));
+            }
+        }
+        return (atoms, lo != blen || hi != blen);
+    }
     let mut atoms = Vec::new();
     for (ua, ul) in universe(v6) {
         // atom (ua/ul) is matched iff it lies inside addr/l and lo <= ul <= hi
@@ -1346,7 +1359,8 @@ async fn serve_session<S: tokio::io::AsyncRead + tokio::io::AsyncWrite + Unpin>(
                     }
                     ev["den"] = den_map(fs);
                 }
-                let failing = matches!(fault.as_ref().map(|f| f.kind.as_str()), Some("rpc-error") | Some("delayed-error") | Some("malformed") | Some("wrong-id") | Some("no-ok") | Some("close-before"));
+                let failing = matches!(fault.as_ref().map(|f| f.kind.as_str()), Some("rpc-error") | Some("delayed-error") | Some("malformed") | Some("wrong-id") | Some("no-ok") | Some("close-before")
+                                       | Some("error+ok") | Some("ok+error") | Some("prefixed-error") | Some("warning+error"));
                 if !failing {
                     if let Some(s) = staged.as_mut() {
                         // override / update: what is loaded becomes the whole configuration of the instance
@@ -1423,6 +1437,30 @@ async fn serve_session<S: tokio::io::AsyncRead + tokio::io::AsyncWrite + Unpin>(
                 // released only after a later request arrived (pipelined loads)
                 delayed.push(err_reply);
                 vec![]
+            }
+            // other shapes of a negative answer: the error next to the positive indication (either order), after a
+            // warning, and with the base namespace bound to a prefix
+            "error+ok" | "ok+error" | "warning+error" => {
+                let warning = RPC_ERROR.replace("<error-severity>error</error-severity>", "<error-severity>warning</error-severity>");
+                let inner = match fk.as_str() {
+                    "error+ok" => format!("{RPC_ERROR}<ok/>"),
+                    "ok+error" => format!("<ok/>{RPC_ERROR}"),
+                    _ => format!("{warning}{RPC_ERROR}"),
+                };
+                if kind == "load" {
+                    vec![format!("<rpc-reply message-id=\"{id}\" xmlns=\"{BASE_NS}\"><load-configuration-results>{inner}</load-configuration-results></rpc-reply>{EOM}")]
+                } else {
+                    vec![format!("<rpc-reply message-id=\"{id}\" xmlns=\"{BASE_NS}\">{inner}</rpc-reply>{EOM}")]
+                }
+            }
+            "prefixed-error" => {
+                let e = RPC_ERROR.replace("<rpc-error>", "<nc:rpc-error>").replace("</rpc-error>", "</nc:rpc-error>")
+                    .replace("<error-", "<nc:error-").replace("</error-", "</nc:error-");
+                if kind == "load" {
+                    vec![format!("<nc:rpc-reply message-id=\"{id}\" xmlns:nc=\"{BASE_NS}\"><nc:load-configuration-results>{e}<nc:load-error-count>1</nc:load-error-count></nc:load-configuration-results></nc:rpc-reply>{EOM}")]
+                } else {
+                    vec![format!("<nc:rpc-reply message-id=\"{id}\" xmlns:nc=\"{BASE_NS}\">{e}</nc:rpc-reply>{EOM}")]
+                }
             }
             "malformed" => vec![format!("<rpc-reply message-id=\"{id}\" xmlns=\"{BASE_NS}\"><ok></rpc-reply>{EOM}")],
             "no-ok" => vec![format!("<rpc-reply message-id=\"{id}\" xmlns=\"{BASE_NS}\"></rpc-reply>{EOM}")],
